@@ -128,6 +128,9 @@ class Gen(object):
         elif t in ("PublicKey", "PrivateKey"):
             obj.update(alg="RSA", len=1024, fmt="PKCS_1" if t == "PublicKey" else "PKCS_8",
                        val="rsapub" if t == "PublicKey" else "rsapriv")
+        if "alg" in obj and self.r.random() < 0.06:
+            # the key block's optional fields: algorithm / length left out
+            obj.pop(self.r.choice(["alg", "len"]))
         attrs = self.extra_attrs(t, ver)
         if t != "OpaqueData" and self.r.random() < 0.85:
             attrs.insert(0, {"name": "Cryptographic Usage Mask", "v": self.mask()})
